@@ -101,3 +101,7 @@ def c11_accepted_invalid(label) -> bool:
     """KF C11-extend-unknown-ignored: build_schema applies extensions in non-strict mode, which (documented on
     extend_schema) silently ignores an extension of a type that is not defined anywhere."""
     return ENABLED and label == "extend-unknown"
+
+
+def c12_desc_excluded(d) -> bool:
+    return False
